@@ -9,7 +9,8 @@ def get_keywordarg_dict(klass, is_mixin=False):
     init_dicts = {}
     if not is_mixin:
         init_dicts = {}
-        args, varargs, varkw, defaults = inspect.getargspec(klass.__init__)
+        args, varargs, varkw, defaults = \
+            inspect.getfullargspec(klass.__init__)[:4]
         log.debug('Inpection {} {} {} {}'.format(args,
                                                  varargs,
                                                  varkw,
@@ -204,7 +205,7 @@ def star_factory(star_type):
 
 
 def create_gas_profile(config):
-    from taurex.data.profiles.chemistry.gas import Gas
+    from taurex.data.profiles.chemistry.gas.gas import Gas
     return create_profile(config, gas_factory, Gas)
 
 
